@@ -52,6 +52,26 @@ Section Build.
     forallb (fun d => Nat.leb lo d && Nat.ltb d (g_random_high G features)) degs.
 End Build.
 
+(* ---------- how the constructors pass degrees along: the table of a CHAIN ----------
+   (class, target, callee or "=", expression given as in_degrees / assigned).  A feed-forward block builds its layer against the
+   block's in_degrees and exports that layer's degrees; a residual block builds its first layer against in_degrees, its second
+   against the first's degrees and exports the second's; MADE builds the initial layer against the input degrees, every block
+   against the running prev_out_degrees, which it then moves to the block just built, and the final layer against the last value.
+   This is exactly the data flow of [eval_layers] / [degs_after] below, where each layer is evaluated against the degrees left by
+   the layer before it.  Gen/MadeT.v and Gen/MadeN.v regenerate the table from the two source files. *)
+From Coq Require Import String.
+Definition chain_wiring : list (string * string * string * string) :=
+  [("MaskedFeedforwardBlock", "self.linear", "MaskedLinear", "in_degrees");
+   ("MaskedFeedforwardBlock", "self.degrees", "=", "self.linear.degrees");
+   ("MaskedResidualBlock", "linear_0", "MaskedLinear", "in_degrees");
+   ("MaskedResidualBlock", "linear_1", "MaskedLinear", "linear_0.degrees");
+   ("MaskedResidualBlock", "self.degrees", "=", "linear_1.degrees");
+   ("MADE", "self.initial_layer", "MaskedLinear", "_get_input_degrees(features)");
+   ("MADE", "prev_out_degrees", "=", "self.initial_layer.degrees");
+   ("MADE", "blocks.append", "block_constructor", "prev_out_degrees");
+   ("MADE", "prev_out_degrees", "=", "blocks[-1].degrees");
+   ("MADE", "self.final_layer", "MaskedLinear", "prev_out_degrees")]%string.
+
 (* ---------- semantic model: evaluation with arbitrary weights ---------- *)
 Section Sem.
   Variable T : Type.
